@@ -61,7 +61,7 @@ def main():
             'enable': 'none needed: every seam is a module/instance attribute rebound from the harness (simpex/shim.py); the guard '
                       'variable is reserved and guards nothing in /repo',
             'baseline_off_cmd': 'cd /repo && /venv/bin/python -m pytest -ra -q -p no:cacheprovider --timeout=900 '
-                                '--continue-on-collection-errors',
+                                '--continue-on-collection-errors --junitxml=<file>',
             'source_commits': [],
             'add_only': True,
         },
